@@ -28,6 +28,7 @@ D = {
  'D9': "D9: an API call on SQLite is a sequence of separately committed statements (only snapshot, restore and relay replacement are transactions), and OpenMLS persists the advanced decryption ratchet / deletes the consumed key package before MDK has recorded any effect; a process death in between leaves the event consumed but not applied (offering it again is refused, the message is lost or the member is stuck behind the commit / the invitation can never be accepted) or leaves the MLS state ahead of the group record",
  'D8c': "D8 reached through a crash: the process dies inside the echo of the member's own commit after the rollback snapshot of that epoch was written; the restarted process hydrates that snapshot without the applied commit's timestamp, offering the echo again applies the commit, but the better competing commit that arrives afterwards is no longer recognised as better and is refused (no rollback)",
  'D23': "D23: a commit that sets a group's Nostr group id to a value another group of the same client still holds (the other group has given the id up, but this client has not processed that rotation yet) is merged at the MLS level, then the record update is refused by the uniqueness rule on the id: the call reports Unprocessable, the group's MLS state is one epoch ahead of its record for good, and its later events (tagged with the new id) are refused as GroupNotFound",
+ 'D21': "D21: new() racing with new_unencrypted() or new_with_key() on the same missing path: new() pre-creates the file and stores a fresh keyring key, the other constructor (no key-generation lock, ignores AlreadyExisted) initialises the empty file its own way, new() then fails with WrongEncryptionKey; the keyring keeps the key new() generated, which no sequential order of the two calls leaves behind",
  'D14': "D14: events are routed by the Nostr group id in the stored record only: after an id rotation (applied, or applied on a losing branch and rolled back) an event tagged with the id that was in force when it was created is unroutable (GroupNotFound, recorded Failed): the winning commit of a race is refused and the member stays on the losing branch (C01); an application message of the previous epoch that arrives after the rotation commit is lost, an own message is never confirmed (C02)",
 }
 def label(s):
@@ -38,7 +39,9 @@ def label(s):
         if 'snapshot-at-fork=no,on-branch-of=own-commit' in s and (s.endswith(',own-commit-applied-by=merge') or s.endswith(',own-commit-applied-by=start-state')): return 'D1'
         if 'quiescent-behind' in s and 'off-spine-depth=0,needs=commit.other:dedup=failed:redelivery=Unprocessable' in s: return 'D2'
     if s.startswith('C02|') and ':h-tag=id-rotated-since|' in s and ('|lost|' in s or '|ends-created|' in s): return 'D14'
+    if s.startswith('C02|lost|') and ':redelivery=disabled:' in s and s.endswith('|deliver(commit.other.winner@cur)->Unprocessable'): return 'D2'
     if s.startswith('C03|removed-user-still-in-roster-after-settling|') and 'snapshot-at-fork=no,on-branch-of=own-commit' in s and (s.endswith(',own-commit-applied-by=merge') or s.endswith(',own-commit-applied-by=start-state')): return 'D1'
+    if s.startswith('C03|removed-user-still-in-roster-after-settling|') and 'snapshot-at-fork=yes,on-branch-of=other-commit,branch-is-better=false' in s and s.endswith(',first-offered=loser,restart-after-it=true'): return 'D8'
     if s.startswith('C03|reactivated-after-eviction:pending|via=process_welcome(foreign-invitation)->Welcome'): return 'D11'
     if s.startswith('C03|reactivated-after-eviction:active|via=accept_welcome(own-invitation)->Ok'): return 'D16'
     if s.startswith('C04|message-of-another-author-altered|replay=commit|same-h,smaller-id|'): return 'D18'
@@ -60,6 +63,7 @@ def label(s):
     if s.startswith('C12|recovery-differs|'):
         if re.search(r'\|again:(Unprocessable|Err\(\w+\))-instead-of-(ApplicationMessage|Commit|Proposal|PendingProposal|Ok)\|', s): return 'D9'
         if re.search(r'\|merge_pending_commit\[own[^\]]*\]@', s) and '|reopened:between(' in s and '|again:same-result|' in s: return 'D9'
+    if s in ('C19|concurrent-open|not-sequential|new||unencrypted missing|keyring-entries=[true, false]-sequentially-[false, false]', 'C19|concurrent-open|not-sequential|new||with_key missing|keyring-entries=[true, false]-sequentially-[false, false]'): return 'D21'
     if s.startswith('C11|'):
         if 'never-restarted=Commit|restarted=Unprocessable|restart-after-competitor-applied' in s: return 'D8'
         if s.startswith('C11|obs-differs|deliver(commit.') and s.endswith('|restart-after-competitor-applied'): return 'D8'
